@@ -27,6 +27,20 @@ pub fn build_decoy<D: GD>(data: &mut D, decoy: &str) -> Result<(), String> {
     Ok(())
 }
 
+fn copy_of_used_object() -> Option<garnish_lang_simple_data::SimpleGarnishData> {
+    use garnish_lang_traits::GarnishData;
+    let mut d = new_simple();
+    let toks = lex_g("2 + 3").ok()?.ok()?;
+    let dp = parse_g(&toks).ok()?.ok()?;
+    let b = build_g(&dp, &mut d).ok()?.ok()?;
+    let last = d.get_data_len().checked_sub(1)?;
+    d.set_end_of_constant(last).ok()?;
+    if !matches!(run_program(&mut d, *b.jump_index(), None, 100), RunEnd::Finished(_)) {
+        return None;
+    }
+    guard("store", || d.clone_without_data()).ok()?.ok()
+}
+
 /// build `parsed` into `data` (optionally after a decoy program) and return what the build added
 pub fn build_with_extent<D: GD>(data: &mut D, parsed: &ParseResult, with_decoy: bool) -> Result<(Extent, Vec<Option<usize>>), String> {
     if with_decoy {
@@ -70,10 +84,13 @@ pub fn judge(input: &str, ctx: &mut CaseCtx) {
     // last: (BasicGarnishData) after the identifier decoy was built and the store compacted without retaining it.
     // Short inputs see every state; longer ones the fresh one, the main decoy and one more chosen by their hash.
     let compacted = DECOYS.len() + 1;
-    let states: Vec<usize> = if input.len() < 8 { (0..=compacted).collect() } else { vec![0, 1, 2 + (fnv(input.as_bytes()) % (DECOYS.len() as u64)) as usize] };
+    // (SimpleGarnishData) a clone_without_data copy of an object in which `2 + 3` was built, marked constant and run:
+    // the copy holds the program and its constants but not the 5 the run stored behind them
+    let copy_of_used = DECOYS.len() + 2;
+    let states: Vec<usize> = if input.len() < 8 { (0..=copy_of_used).collect() } else { vec![0, 1, 2 + (fnv(input.as_bytes()) % (DECOYS.len() as u64 + 1)) as usize] };
     for imp in Impl::BOTH {
         for state in states.iter().copied() {
-            if state == compacted && imp == Impl::Simple {
+            if (state == compacted && imp == Impl::Simple) || (state == copy_of_used && imp == Impl::Basic) {
                 continue;
             }
             let with_decoy = state != 0;
@@ -81,7 +98,12 @@ pub fn judge(input: &str, ctx: &mut CaseCtx) {
             let (res, rendered, faults) = match imp {
                 Impl::Simple => {
                     let mut d = new_simple();
-                    if state >= 1 && build_decoy(&mut d, DECOYS[state - 1]).is_err() {
+                    if state == copy_of_used {
+                        match copy_of_used_object() {
+                            Some(c) => d = c,
+                            None => continue,
+                        }
+                    } else if state >= 1 && build_decoy(&mut d, DECOYS[state - 1]).is_err() {
                         continue;
                     }
                     match build_with_extent(&mut d, &parsed, false) {
@@ -111,7 +133,7 @@ pub fn judge(input: &str, ctx: &mut CaseCtx) {
                 }
                 for f in faults {
                     let sig = if empty_group { format!("{}[input-has-empty-group]", f.sig) } else { f.sig };
-                    ctx.fail(sig, format!("{:?} built into {}{}: {} — stream {}", input, imp.name(), if state == compacted { " after an earlier program was built and the store compacted without retaining it".to_string() } else if with_decoy { format!(" after the decoy program {:?}", DECOYS[state - 1]) } else { String::new() }, f.detail, rendered));
+                    ctx.fail(sig, format!("{:?} built into {}{}: {} — stream {}", input, imp.name(), if state == compacted { " after an earlier program was built and the store compacted without retaining it".to_string() } else if state == copy_of_used { " (a clone_without_data copy of an object in which `2 + 3` was built, marked constant and run)".to_string() } else if with_decoy { format!(" after the decoy program {:?}", DECOYS[state - 1]) } else { String::new() }, f.detail, rendered));
                 }
             }
         }
@@ -133,7 +155,7 @@ impl Check for C05Check {
     fn rule(&self) -> String {
         "Same corpus as C04 (every sequence of up to L token classes x 3 separators, level-representative operator triples, token soups, random deeper expressions). Every input that parse and build accept is built into SimpleGarnishData and BasicGarnishData, \
          each fresh and after a decoy program (so all table indexes of the program under test are > 0 and an unpatched 0 placeholder or an absolute/relative mix-up leaves its own range); the decoys differ in how the stream they leave behind ends (a jump, a bare end of expression, the empty program) and in what they intern (the corpus's identifiers and constants), \
-         and BasicGarnishData is also used after the identifier decoy was built and the store compacted with nothing retained; inputs shorter than 8 bytes see all six states, longer ones three (fresh, main decoy, one chosen by hash). \
+         and BasicGarnishData is also used after the identifier decoy was built and the store compacted with nothing retained; and SimpleGarnishData as a clone_without_data copy of an object in which a program was built, marked constant and run; inputs shorter than 8 bytes see all seven states, longer ones three (fresh, main decoy, one chosen by hash). \
          Oracle (through GarnishData getters only): Put/Resolve operands name existing values (Resolve: a Symbol), jump operands and Expression values name jump entries created by this build, every entry created by this build points inside this build's instructions, \
          the last instruction and the instruction before every body entry (root, Expression bodies, conditional arms, logical right operands) is EndExpression/JumpTo, one metadata record per emitted instruction naming an existing parse node. \
          Non-trivial = program with >= 2 jump-table entries; distinct = distinct inputs."
